@@ -131,6 +131,8 @@ def pick_instances(seed, count):
     if inst['n'] < 3:
       continue
     inst['par']['n_designs'] = rng.choice([2, 3, 5])
+    if inst['extra_elig_row'] not in (False, 'optional'):
+      inst['extra_elig_row'] = 'optional'      # the instance must be constructible: C10 is about one live object
     shape = len(out) % 4
     if shape == 0:
       inst['tr'] = inst['cr'] = (0, 0)
